@@ -379,6 +379,7 @@ func (s *serverStream) Conn() network.Conn    { return conn{local: s.local, remo
 func (s *serverStream) ID() string            { return "sim" }
 
 func (s *serverStream) Read(b []byte) (int, error) {
+	verifrt.Yield() // a network read is a blocking point: the node may be descheduled (stalled) here
 	if len(s.in) == 0 {
 		return 0, io.EOF
 	}
